@@ -43,7 +43,7 @@ for h in ["k_sub_valid_constant_w0", "k_sub_valid_constant_w", "k_sub_valid_verb
         functions=["decode::read_subframe", "decode::read_fixed_subframe", "decode::read_lpc_subframe", "decode::read_residuals", "decode::predict",
                    "stream::SubframeHeader::from_reader", "stream::SubframeHeaderType::from_reader"],
         contract=SUB_CONTRACT, timeout=600)
-for h, tier in [("k_sub_mod_fixed2", "quick"), ("k_sub_mod_fixed3_w", "quick"), ("k_sub_mod_fixed4", "quick"), ("k_sub_mod_fixed2_33", "quick"),
+for h, tier in [("k_sub_mod_fixed2", "quick"), ("k_sub_mod_fixed3_w", "thorough"), ("k_sub_mod_fixed4", "quick"), ("k_sub_mod_fixed2_33", "quick"),
                 ("k_sub_mod_lpc2_w", "thorough"), ("k_sub_mod_lpc3", "thorough"), ("k_sub_mod_lpc3_33", "thorough")]:
     add("K-" + h[2:], ["C03", "C01"], D + h, tier=tier, bound="block <= 6 samples, predictor order 2..4, coefficient vector fixed per instance",
         functions=["decode::read_subframe", "decode::read_fixed_subframe", "decode::read_lpc_subframe", "decode::predict"],
@@ -140,7 +140,7 @@ for h in ["k_correlate_fast_ms", "k_correlate_fast_noms"]:
         functions=["encode::correlate_channels"],
         contract="correlate_channels: returned slices are (left,right) / (left, l-r) / (l-r, right) / ((l+r)>>1, l-r) for the returned assignment, side channel at bps+1, "
                  "32-bit input never decorrelated, mid/side only when enabled, all_0 flags truthful", timeout=300)
-for h, tier in [("k_write_res_po0_n2_o0", "thorough"), ("k_write_res_po0_n1_o1_rice2", "quick")]:
+for h, tier in [("k_write_res_po0_n2_o0", "thorough"), ("k_write_res_po0_n1_o1_rice2", "thorough")]:
     add("K-" + h[2:], ["C02", "C01"], E + h, tier=tier, bound="<= 2 residuals, max partition order 0; all residual values; log2 under an interval contract",
         functions=["encode::write_residuals", "encode::write_residuals::Partition::new", "encode::write_residuals::Partition::to_writer",
                    "encode::write_residuals::best_partitions", "encode::write_residuals::write_partitions", "encode::write_residuals::try_reduce_rice",
@@ -307,7 +307,7 @@ P("C01", "model_checking",
   "functions against one RFC 9639 generator/reference written from the RFC: residual computation (fixed and LPC, exact), stereo decorrelation both ways, Rice/escape residual coding at "
   "partition order 0, subframe and frame-body decoding, wasted bits, verbatim fallback; tiny blocks, all sample values. Unbounded Verus lemmas (any predictor is invertible, mid/side "
   "invertible, Rice folding bijective, partition layout) carry the arithmetic to every block length.",
-  BASE_NOTE, ["partition search above order 0 beyond the 4-sample block (Kani runs out of memory); its layout rule is L-PART + K-write_res_short_*",
+  BASE_NOTE, ["the partition search of best_partitions (CBMC runs out of memory even on a 4-sample block); its acceptance rule is V-part-encoder-filter (lemma + text anchor) and a native witness",
               "audio::Frame interleaving and the reader/writer front ends (MultiZip/VecDeque do not finish in CBMC)",
               "LPC with symbolic coefficients on the decode side (SAT cannot match two multiplier circuits; fixed coefficient vectors + lemma L-LPC instead)",
               "encode_frame assembly (> 12 min)"])
